@@ -22,6 +22,7 @@ COQ = os.path.join(VERIF, "coq")
 RUNNER = os.path.join(VERIF, "runner", "modelrun")
 PY = "/venv/bin/python"
 NCPU = min(16, os.cpu_count() or 4)
+HANG_LIMIT = 48
 
 # exception codes shared with Common/Val.v
 E = dict(Index=1, Key=2, Value=3, Type=4, Runtime=5, Attribute=6, Recursion=7, Assertion=8, StopIteration=9,
@@ -407,10 +408,15 @@ def run_impl(prop, cases, extra_env=None):
     nw = min(NCPU, max(1, n // 20))
     shards = [list(range(k, n, nw)) for k in range(nw)]
     import threading
+    hung = [0]          # cases that diverged / crashed so far; beyond a limit the rest of the batch is skipped
 
     def work(idxs):
         pending = list(idxs)
         while pending:
+            if hung[0] > HANG_LIMIT:
+                for i in pending:
+                    results[i] = {"skipped": "too many diverging cases in this batch"}
+                return
             p = subprocess.Popen([PY, "-m", "harness.core", "--worker", prop.id], stdin=subprocess.PIPE,
                                  stdout=subprocess.PIPE, stderr=subprocess.DEVNULL, text=True, env=env, cwd=VERIF,
                                  start_new_session=True)
@@ -438,8 +444,10 @@ def run_impl(prop, cases, extra_env=None):
                     results[i] = obs
                     got.add(i)
             rest = [i for i in pending if i not in got]
+            hung[0] += sum(1 for i in got if results[i] == err(E["Diverges"]))
             if rest:
                 results[rest[0]] = err(E["Crash"])  # the case the worker died / hung on
+                hung[0] += 1
                 rest = rest[1:]
             pending = rest
     ts = [threading.Thread(target=work, args=(sh,)) for sh in shards]
@@ -477,6 +485,7 @@ def evaluate(prop, cases):
     ires = run_impl(prop, cases)
     mres = [prop.canon(c, m) for c, m in zip(cases, mraw)]
     ires = [i if isinstance(i, dict) or _is_fail(i) else prop.canon(c, i) for c, i in zip(cases, ires)]
+    mres = [i if (isinstance(i, dict) and "skipped" in i) else m for m, i in zip(mres, ires)]
     return pairs, mres, ires
 
 
@@ -487,6 +496,8 @@ def _is_fail(i):
 def classify(prop, case, m, i):
     """'ok' | 'violation' | 'corr' (correspondence broken, property still accepted)"""
     if m == i:
+        return "ok"
+    if isinstance(i, dict) and "skipped" in i:
         return "ok"
     if prop.in_domain(case) and not prop.accept(case, i, m):
         return "violation"
@@ -592,7 +603,7 @@ def run_check(prop, tier, seed, scratch, t0, n_override=None):
     concrete = []
     harness_err = []
     for c, m, i in zip(cases, mres, ires):
-        if isinstance(i, dict):
+        if isinstance(i, dict) and "harness_error" in i:
             harness_err.append((c, m, i))
         k = classify(prop, c, m, i)
         if k == "violation":
@@ -715,7 +726,8 @@ def run_check(prop, tier, seed, scratch, t0, n_override=None):
                             distinct_nontrivial=n_nontrivial,
                             rule=prop.rule,
                             samples=samples[:3],
-                            traces_validated_against_impl=sum(1 for m, i in zip(mres, ires) if m == i),
+                            traces_validated_against_impl=sum(1 for m, i in zip(mres, ires) if m == i and not isinstance(i, dict)),
+                            skipped_after_hang_limit=sum(1 for i in ires if isinstance(i, dict) and "skipped" in i),
                             disagreements=len(corr_broken) + len(concrete),
                             extraction_cross_checked_in_coq=xs,
                             extraction_cross_check_mismatches=xbad,
